@@ -399,17 +399,17 @@ def stage(ck, outs, prefix="liverange_"):
     spec_ans = ck.model(spec_lines, parallel=False) if spec_lines else []
     rejected = {}
     for (o, st), line, ans in zip(spec_owner, spec_lines, spec_ans):
-        m = re.match(r"uncovered=(\d+) (.*?) \| io=(\d+) (.*?) \| clobbers=(\d+) (.*)", ans)
+        m = re.match(r"uncovered=(\d+) (.*?) \| io=(\d+) (.*?) \| clobbers=(\d+) (.*?) \| regressions=(\d+) (.*)", ans)
         if not m:
             raise common.InfraError("unexpected lrspec answer: " + ans[:200])
         ck.count(prefix + "spec_networks")
         for k, v in st.items():
             ck.count(prefix + "spec_" + k, v)
-        nu, nio, ncl = int(m.group(1)), int(m.group(3)), int(m.group(5))
-        if nu or nio or ncl:
-            rejected[(o["profile"], o["idx"])] = (o, line, ans, nu, nio, ncl)
+        nu, nio, ncl, nrg = int(m.group(1)), int(m.group(3)), int(m.group(5)), int(m.group(7))
+        if nu or nio or ncl or nrg:
+            rejected[(o["profile"], o["idx"])] = (o, line, ans, nu, nio, ncl, nrg)
     # failing-input search: a disagreement is the code's fault only if the Lean Spec rejects the real ranges
-    for (o, line, ans, nu, nio, ncl) in rejected.values():
+    for (o, line, ans, nu, nio, ncl, nrg) in rejected.values():
         what = []
         if nu:
             what.append("tensor accessed outside its live range (tensor@lo..hi): " + ans.split(" | ")[0])
@@ -418,6 +418,9 @@ def stage(ck, outs, prefix="liverange_"):
         if ncl:
             what.append("two tensors share one live range and a value is overwritten before it is read "
                         "(reader op:tensor:writer op): " + ans.split(" | ")[2])
+        if nrg:
+            what.append("time indices decrease along the execution order (interleaved operations do not share one index; "
+                        "op@time<previous): " + ans.split(" | ")[3])
         ck.violation("; ".join(what) + f" (network {o['idx']} {o['profile']} {o['opts']})",
                      {"profile": o["profile"], "seed": o["seed"], "index": o["idx"], "opts": o["opts"], "network": o["desc"],
                       "lrspec_request": line[:6000], "verdict": ans}, found_input=True)
